@@ -176,6 +176,38 @@ func ruleA15a(r *Run, p *Prog, rule, rel, tname string) {
 			if !guarded {
 				return
 			}
+			// calls on the loaded interface value must happen under the lock too
+			if _, isIface := fv.Type().Underlying().(*types.Interface); isIface {
+				for _, ref := range referrersOf(fa) {
+					if ld, ok := ref.(*ssa.UnOp); ok && ld.Op == token.MUL {
+						for _, r2 := range referrersOf(ld) {
+							var use ssa.Instruction
+							if cc := callCommon(r2); cc != nil && cc.IsInvoke() && cc.Value == ssa.Value(ld) {
+								use = r2
+							}
+							if ta, isTA := r2.(*ssa.TypeAssert); isTA {
+								// calls on the asserted value
+								for _, r3 := range referrersOf(ta) {
+									if ex, ok := r3.(*ssa.Extract); ok && ex.Index == 0 {
+										for _, r4 := range referrersOf(ex) {
+											if cc := callCommon(r4); cc != nil && cc.IsInvoke() && cc.Value == ssa.Value(ex) {
+												heldC := li.heldAt(m, r4)
+												n++
+												r.Ob(rule, FnName(m)+"/"+fv.Name()+"."+cc.Method.Name(), p.Pos(r4.Pos()), heldC, true, tern(heldC, "call on the wrapped "+fv.Name()+" made with "+mu.Name()+" held", "the wrapped "+fv.Name()+" is called after "+mu.Name()+" was released: two goroutines can be inside it at once"))
+											}
+										}
+									}
+								}
+							}
+							if use != nil {
+								heldC := li.heldAt(m, use)
+								n++
+								r.Ob(rule, FnName(m)+"/"+fv.Name()+"."+callCommon(use).Method.Name(), p.Pos(use.Pos()), heldC, true, tern(heldC, "call on the wrapped "+fv.Name()+" made with "+mu.Name()+" held", "the wrapped "+fv.Name()+" is called after "+mu.Name()+" was released: two goroutines can be inside it at once"))
+							}
+						}
+					}
+				}
+			}
 			n++
 			held := li.heldAt(m, fa)
 			r.Ob(rule, FnName(m)+"/"+fv.Name(), p.Pos(fa.Pos()), held, true, tern(held, "field "+fv.Name()+" accessed with "+mu.Name()+" held", "field "+fv.Name()+" of "+tname+" is accessed without holding "+mu.Name()+" (concurrent calls interleave on it)"))
